@@ -165,7 +165,41 @@ def fn_value(f, v):
 
 
 def frac_of_lit(text):
-    return Fraction(text)
+    """The number a literal text denotes for Python (and for pymoca's parser, which uses int()/float()):
+    an integer exactly, anything else the IEEE double nearest to the decimal — exactly that double."""
+    try:
+        return Fraction(int(text))
+    except ValueError:
+        return Fraction(float(text))
+
+
+def term_lits(e, acc=None):
+    """Literal texts of a term, left to right."""
+    acc = [] if acc is None else acc
+    if e[0] == "n":
+        acc.append(e[1])
+    elif e[0] == "b":
+        term_lits(e[2], acc), term_lits(e[3], acc)
+    elif e[0] in ("u", "c"):
+        term_lits(e[2], acc)
+    elif e[0] == "d":
+        term_lits(e[1], acc)
+    return acc
+
+
+def pytree_lits(t, acc=None):
+    """Number literals of a `py_tree` result, left to right."""
+    acc = [] if acc is None else acc
+    if t[0] == "a":
+        if t[1][:1].isdigit() or t[1][:1] == ".":
+            acc.append(t[1])
+    elif t[0] == "b":
+        pytree_lits(t[2], acc), pytree_lits(t[3], acc)
+    elif t[0] in ("p", "c"):
+        pytree_lits(t[2], acc)
+    elif t[0] == "d":
+        pytree_lits(t[1], acc)
+    return acc
 
 
 def pow_exact(a, b):
